@@ -10,6 +10,7 @@ From NB Require Import Diff.DictProofs.
 From NB Require Import Merge.SortKey.
 From NB Require Import Merge.Decisions.
 From NB Require Import Merge.MergeGeneric.
+From NB Require Import Merge.Apply.
 From NB Require Import Merge.MergeProofs.
 From NB Require Import Merge.MergeDisjointFlat.
 From NB Require Import Merge.MergeKeySym.
@@ -294,3 +295,63 @@ Qed.
 
 Lemma has_conflicted_swap B : has_conflicted (map swap_dec B) = has_conflicted B.
 Proof. unfold has_conflicted. induction B as [|d r IH]; [reflexivity|]. cbn. rewrite IH. reflexivity. Qed.
+
+(* ---------- the merged document ---------- *)
+(* decisions whose application does not depend on which side is called local: everything the merge core records without
+   a strategy, except an agreement (action either) whose two sides are not the same JSON diff *)
+Definition side_neutral (d : decision) : Prop :=
+  match d_action d with
+  | ABase | ALocal | ARemote | ACustom | ALocalThenRemote | ARemoteThenLocal | AClearAll => True
+  | AEither => d_local d = d_remote d
+  | _ => False
+  end.
+
+Lemma resolve_action_swap base d : side_neutral d -> resolve_action base (swap_dec d) = resolve_action base d.
+Proof.
+  unfold side_neutral, resolve_action, swap_dec. destruct d as [p a c l r cu s sim]. cbn [d_action d_local d_remote d_custom swap_action].
+  destruct a; cbn [swap_action]; intros Hn; try contradiction; try reflexivity.
+  - cbn in Hn. subst. reflexivity.
+  - destruct l, r; reflexivity.
+  - destruct l, r; reflexivity.
+Qed.
+
+Lemma apply_step_swap st d : side_neutral d -> apply_step st (swap_dec d) = apply_step st d.
+Proof.
+  intros Hn. unfold apply_step.
+  assert (Ec : is_clear_all (d_action (swap_dec d)) = is_clear_all (d_action d)) by (destruct d as [p a c l r cu s sim]; destruct a; reflexivity).
+  change (d_path (swap_dec d)) with (d_path d). rewrite Ec.
+  destruct (split_string_path (a_merged st) (d_path d)) as [[p line]|e]; [|reflexivity]. cbn [bind].
+  destruct (opath_eqb p (a_prev st)).
+  - destruct (a_clear_all st); [reflexivity|].
+    rewrite (resolve_action_swap _ d Hn). reflexivity.
+  - destruct (flush st) as [m|e]; [|reflexivity]. cbn [bind].
+    destruct (get_path m p) as [resolved|e]; [|reflexivity]. cbn [bind].
+    rewrite (resolve_action_swap _ d Hn). reflexivity.
+Qed.
+
+Lemma apply_loop_swap ds : forall st, Forall side_neutral ds -> apply_loop st (map swap_dec ds) = apply_loop st ds.
+Proof.
+  induction ds as [|d r IH]; intros st HF; [reflexivity|]. inversion HF as [|x y Hd Hr]; subst.
+  cbn [map apply_loop]. rewrite (apply_step_swap st d Hd).
+  destruct (apply_step st d) as [st'|e]; [|reflexivity]. cbn [bind]. apply IH. exact Hr.
+Qed.
+
+(* applying the decisions with the sides exchanged builds the same merged document *)
+Theorem apply_decisions_swap base ds : Forall side_neutral ds ->
+  apply_decisions base (map swap_dec ds) = apply_decisions base ds.
+Proof. intros HF. unfold apply_decisions. rewrite (apply_loop_swap ds _ HF). reflexivity. Qed.
+
+(* both halves of the symmetry clause for documents where the sides meet only inside objects: same verdict, and the
+   same merged document provided every agreement decision records JSON-identical diffs on its two sides *)
+Theorem decide_apply_objmeet_swap O cfg St H gk strict cstrict base ld rd D :
+  st_table St = [] -> objmeet base ld rd ->
+  decide_merge_with_diff O cfg St H gk strict cstrict base ld rd = Ok D ->
+  exists D', decide_merge_with_diff O cfg St H gk strict cstrict base rd ld = Ok D'
+             /\ D' = map swap_dec D
+             /\ has_conflicted D' = has_conflicted D
+             /\ (Forall side_neutral D -> apply_decisions base D' = apply_decisions base D).
+Proof.
+  intros Hst Hm HD. exists (map swap_dec D).
+  rewrite (decide_objmeet_swap O cfg St H gk strict cstrict base ld rd Hst Hm), HD.
+  split; [reflexivity|]. split; [reflexivity|]. split; [apply has_conflicted_swap | apply apply_decisions_swap].
+Qed.
